@@ -59,6 +59,7 @@ VARIANTS = {
 PUBLIC = {
     "pkg.a.f": {"pkg.a.f", "pkg.f"}, "pkg.a.K": {"pkg.a.K", "pkg.K"}, "pkg.a.K.attr": {"pkg.a.K.attr", "pkg.K.attr", "pkg.Sub.attr"},
     "pkg.a.K.m": {"pkg.a.K.m", "pkg.K.m", "pkg.Sub.m"}, "pkg.a.Base.bm": {"pkg.a.Base.bm", "pkg.a.K.bm", "pkg.K.bm", "pkg.Sub.bm"},
+    "pkg.a.f@definition": {"pkg.a.f"}, "pkg.a.Base.bm@definition": {"pkg.a.Base.bm"},
     "pkg.a.Base": {"pkg.a.Base"}, "pkg.a._PB.pbm": {"pkg.a.Base.pbm", "pkg.a.K.pbm", "pkg.K.pbm", "pkg.Sub.pbm"}, "pkg.a.w": {"pkg.a.w"}, "pkg.VALUE": {"pkg.VALUE"}, "pkg.Sub": {"pkg.Sub"}, "pkg.a.Base.battr": {"pkg.a.Base.battr", "pkg.a.K.battr", "pkg.K.battr", "pkg.Sub.battr"},
 }
 PRIVATE_MARKERS = ("_g", "_pm", "_pw", "helper", "_priv", "_PB")
@@ -109,6 +110,21 @@ def catalogue():
     edit("remove-Base", False, A, lambda s: [x for x in s if not x.startswith("class Base")], ("pkg.a.Base", "removed", None))
     edit("change-VALUE", False, I, lambda s: _sub(s, "VALUE = 1", "VALUE = 2"), ("pkg.VALUE", "value was changed", None))
     edit("remove-Sub", False, I, lambda s: [x for x in s if not x.startswith("class Sub")], ("pkg.Sub", "removed", None))
+    def move_f_to_init(fs):
+        fs["pkg/a.py"] = [x for x in fs["pkg/a.py"] if not x.startswith("def f(")]
+        assert "from pkg.a import f as f" in fs["pkg/__init__.py"]
+        fs["pkg/__init__.py"] = [('def f(x, y=1):\n    """Doc f."""' if x == "from pkg.a import f as f" else x) for x in fs["pkg/__init__.py"]]
+        return fs
+
+    def move_bm_down(fs):
+        a = fs["pkg/a.py"]
+        a2 = _sub(a, "    def bm(self): ...\n", "")
+        fs["pkg/a.py"] = _sub(a2, "    attr = 1\n", "    attr = 1\n    def bm(self): ...\n")
+        return fs
+
+    # the object disappears at its definition path while a re-export / inherited path keeps working: still a removal at the old path
+    edit("move-f-into-init", False, None, move_f_to_init, ("pkg.a.f@definition", "removed", None))
+    edit("move-method-down", False, None, move_bm_down, ("pkg.a.Base.bm@definition", "removed", "pkg.a.Base"))
     edit("drop-reexport", False, I, lambda s: [x for x in s if x != "from pkg.a import f as f"], ("pkg.a.f", "removed", None))
     return E
 
@@ -131,6 +147,16 @@ def apply_script(variant, script):
     files = base_files(variant)
     for ei in script:
         e = CAT[ei]
+        if e["file"] is None:
+            # an edit touching two files (moving a definition)
+            try:
+                newfiles = e["fn"]({k: list(v) for k, v in files.items()})
+            except AssertionError:
+                return None
+            if newfiles == files:
+                return None
+            files = newfiles
+            continue
         try:
             new = e["fn"](files[e["file"]])
         except AssertionError:
@@ -177,14 +203,15 @@ def judge(griffe, variant, script, old_pkg, new_pkg):
     edits = [CAT[i] for i in script]
     incompat = [e for e in edits if not e["compat"]]
     # what containers were removed / re-kinded by the script (waives expectations below them)
-    lost = {e["expect"][0] for e in incompat if e["expect"][1] in ("removed", "kind")}
+    lost = {e["expect"][0].split("@")[0] for e in incompat if e["expect"][1] in ("removed", "kind") and "@" not in e["expect"][0]}
     if not incompat:
         if seen:
             viols.append((f"noise/{'+'.join(sorted({e['name'] for e in edits}))}/{seen[0][0]}", f"only compatible edits {[e['name'] for e in edits]} but reported: {seen[:3]}"))
     else:
         for e in incompat:
             target, kind_sub, container = e["expect"]
-            if container in lost or any(target != l and target.startswith(l + ".") for l in lost):
+            bare = target.split("@")[0]
+            if container in lost or any(bare != l and bare.startswith(l + ".") for l in lost) or (target != bare and bare in lost):
                 continue
             if e["name"] == "remove-base" and "pkg.a.Base" in lost:
                 continue
